@@ -101,6 +101,19 @@ pub fn std_module(log: InvLog) -> Methods {
 		Err::<u8, _>(ErrorObjectOwned::owned(1234, "custom failure", Some(json!({"k": [1, 2]}))))
 	})
 	.unwrap();
+	// the same, registered as a blocking method
+	m.register_blocking_method("blob_blocking", |p, log, _| {
+		log.lock().unwrap().push("blob_blocking".into());
+		let (kind, n): (u8, usize) = p.parse()?;
+		Ok::<_, ErrorObjectOwned>(blob(kind, n))
+	})
+	.unwrap();
+	// answers from the request extensions the server attaches to every call (the connection id)
+	m.register_method("whoami", |_, log, ext| {
+		log.lock().unwrap().push("whoami".into());
+		Ok::<_, ErrorObjectOwned>(json!({"has_connection_id": ext.get::<jsonrpsee_server::ConnectionId>().is_some()}))
+	})
+	.unwrap();
 	// result of controllable size and content class: params [kind, n]
 	m.register_method("blob", |p, log, _| {
 		log.lock().unwrap().push("blob".into());
